@@ -154,7 +154,13 @@ func (g *authGen) spoil(parts []partSpec, sepUsed string) {
 	case 0, 1, 2:
 		p.name = g.evilName(sepUsed)
 	case 3:
-		p.renamed = g.evilName("")
+		// with "/" (refused) or with the sender's separator (not converted for the rename
+		// target: stays one odd segment inside the final directory)
+		if g.r.Chance(0.5) {
+			p.renamed = g.evilName("")
+		} else {
+			p.renamed = g.evilName(sepUsed)
+		}
 	default:
 		p.prev = g.evilName(sepUsed)
 	}
@@ -314,7 +320,7 @@ func (authComp) Generate(r *Rand, tier string, n int) [][]string {
 		g := &authGen{r: r, seeds: map[string][]string{}, sentOK: map[string][]string{}, blocked: map[string]bool{}, stubbed: map[string]bool{}, made: map[string]bool{}}
 		var ops []string
 		if r.Chance(0.04) {
-			pre := [][]string{{"src1"}, {"src1", "site.host"}, {"x-y.z0", "old.source", "src1"}}[r.Intn(3)]
+			pre := [][]string{{"src1"}, {"src1", "site.host"}, {"x-y.z0", "old.source", "src1"}, {"a/b", "src1"}, {"site/inst/x"}}[r.Intn(5)]
 			ops = append(ops, "boot "+escList(pre))
 			for _, p := range pre {
 				g.made[p] = true
@@ -413,6 +419,8 @@ func (authComp) Corpus() [][]string {
 		{"conf ~ ~", rq("PUT", "/data", "src1", "", "/", "parts", w("ok.dat", "../../../renamed-escape.txt", ""))},
 		// F3 with the sender's separator: the conversion produces the parent segments
 		{"conf ~ ~", rq("PUT", "/data", "src1", "", "\\", "parts", w("..\\..\\..\\sep-escape.txt", "", ""))},
+		// a rename target written with the sender's separator is NOT converted: it stays inside
+		{"conf ~ ~", rq("PUT", "/data", "src1", "", "\\", "parts", w("ok2.dat", "..\\..\\..\\sep-renamed-escape.txt", ""))},
 		// an empty name / a name that is the stage root itself: the final root of the source becomes a file
 		{"conf ~ ~", rq("PUT", "/data", "src1", "", "/", "parts", w("", "", "")), rq("PUT", "/data", "src1", "", "/", "parts", w(".", "", "")),
 			rq("PUT", "/data", "src1", "", "/", "parts", w("dir/..", "", ""))},
@@ -429,6 +437,7 @@ func (authComp) Corpus() [][]string {
 			rq("GET", "/static/", ".", "", "", "none"), rq("GET", "/static/foreign-src/FOREIGNSERVE.txt", ".", "", "", "none"),
 			rq("GET", "/static/", "..", "", "", "none"), rq("PUT", "/data", "a/../..", "", "/", "parts", w("x.dat", "", ""))},
 		// S10: stages found at start-up must not be ready before their recovery begins
+		{"boot a/b,src1", "conf ~ ~", rq("PUT", "/data", "a/b", "", "/", "parts", w("after-boot2.dat", "", ""))},
 		{"boot src1,site.host", "conf ~ ~", rq("PUT", "/data", "src1", "", "/", "parts", w("after-boot.dat", "", ""))},
 		// ready flag: stopped, recovering (held inside Recover), recovered
 		{"conf ~ ~", "gk src1 make", rq("PUT", "/data", "src1", "", "/", "parts", w("one.dat", "", "")), "gk src1 stop",
